@@ -34,6 +34,8 @@ structure Cfg where
   defPer : Nat
   validatesRanges : Bool -- the SDK client refuses server ranges that do not partition 1..allIslands
   cacheKeyedByN : Bool   -- the per-object island cache remembers the N it was computed for
+  pathCacheKeyedByArgs : Bool -- GetFullHashPath reuses the memoised path only for the same (root, island, depth, per-level)
+  unroutedIsError : Bool -- GetServiceClient hands out a client that fails with an error for an island without a route (not nil)
   deriving DecidableEq, Repr
 
 /-- both sides add 1 and the server computes on 16 bits -/
@@ -113,6 +115,12 @@ structure Loc where
 
 def location (cfg : Cfg) (h : Nat) (island : Nat) (depth per : Int) : Option Loc :=
   (hashedLevels cfg h depth per).map fun ls => ⟨island, ls.filter (· ≠ []), hexDigits h⟩
+
+/-- a second `GetFullHashPath(…, island2, depth2, per2)` on a name object that already answered for other arguments -/
+def secondLocation (cfg : Cfg) (h : Nat) (i1 : Nat) (d1 p1 : Int) (i2 : Nat) (d2 p2 : Int) : Option Loc :=
+  match location cfg h i1 d1 p1 with
+  | some l1 => if cfg.pathCacheKeyedByArgs && (i1, d1, p1) != (i2, d2, p2) then location cfg h i2 d2 p2 else some l1
+  | none => location cfg h i2 d2 p2
 
 /-- names the constructors accept -/
 def Valid (cfg : Cfg) (n : Name) : Prop := cfg.rejectsSlash = true → n.NoSlash
